@@ -25,6 +25,12 @@ def main():
         sh(["git", "-C", "/repo", "worktree", "add", "-q", wt, "HEAD"])
         try:
             r = sh(["git", "-C", wt, "-c", "user.name=x", "-c", "user.email=x@x", "revert", "--no-commit", e["commit"]])
+            manual = os.path.join(VERIF, "selftest", "reverts", e["commit"] + ".diff")
+            if r.returncode != 0 and os.path.exists(manual):
+                # later fixes touched the same lines: a hand-written patch re-creates the defect on the current HEAD
+                sh(["git", "-C", wt, "revert", "--abort"])
+                sh(["git", "-C", wt, "checkout", "--", "."])
+                r = sh(["git", "-C", wt, "apply", manual])
             row = {"id": e["id"], "property": e["property"], "commit": e["commit"], "revert_applies": r.returncode == 0}
             if r.returncode == 0:
                 env = dict(os.environ, VERIF_REPO=wt)
